@@ -69,9 +69,11 @@ theorem C52_echo_or_star (hasRules : Bool) (rules : List Rule) (req : Req) (back
 /-- For a rule the loader accepts, `*` stands alone, so "`*` as configured" is unambiguous. -/
 theorem C52_star_as_configured (r : Rule) (o : Str) (hok : ruleOk r = true) (hs : sStar ∈ r.origins) :
     expectedAcao o r = sStar := by
-  unfold ruleOk at hok
-  simp only [Bool.and_eq_true, List.all_eq_true] at hok
-  have h1 := hok.1.2 sStar hs
+  have hall : r.origins.all (originOk r) = true := by
+    unfold ruleOk at hok
+    simp only [Bool.and_eq_true] at hok
+    exact hok.1.1.1.1.2
+  have h1 := List.all_eq_true.mp hall sStar hs
   unfold originOk at h1
   have hlen : r.origins.length = 1 := by
     simp at h1
@@ -100,28 +102,6 @@ theorem C52_vary (hasRules : Bool) (rules : List Rule) (req : Req) (backend : Hd
   · simp only [hp, ho, beq_iff_eq, if_false, setNonPreflight, matchOrigin_eq, ha, baseHdr]
     simp only [Bool.not_true, Bool.false_eq_true, if_false, if_true, Bool.false_eq_true]
     split <;> split <;> exact ⟨addVary_prefix _, varyCovers_addVary _⟩
-
-/-- the auxiliary headers of a granted response, as documented per handler -/
-theorem handle_aux (hasRules : Bool) (rules : List Rule) (req : Req) (backend : Hdr) (r : Rule)
-    (ho : req.origin ≠ []) (hg : governing hasRules rules = some r) (ha : allowedBy req.origin r = true) :
-    let res := handle hasRules rules req backend
-    let base := baseHdr res.1 backend
-    let pre := res.1 == Kind.P
-    res.2.acac = (if r.creds then [sTrue] else base.acac) ∧
-    res.2.acam = (if pre && r.methods.length > 0 then [joinComma r.methods] else base.acam) ∧
-    res.2.acah = (if pre && r.headers.length > 0 then [joinComma r.headers] else base.acah) ∧
-    res.2.acma = (match (if pre then r.maxAge else none) with | some m => [itoa m] | none => base.acma) ∧
-    res.2.aceh = (if !pre && r.expose.length > 0 then [joinComma r.expose] else base.aceh) := by
-  unfold handle governing at *
-  simp only [hg]
-  by_cases hp : isPreflight req = true
-  · simp only [hp, if_true, setPreflight, matchOrigin_eq, ha, baseHdr]
-    simp only [Bool.not_true, Bool.false_eq_true, if_false]
-    cases r.creds <;> cases hm : r.maxAge <;> by_cases h1 : r.methods.length > 0 <;> by_cases h2 : r.headers.length > 0 <;>
-      simp [h1, h2]
-  · simp only [hp, ho, beq_iff_eq, if_false, setNonPreflight, matchOrigin_eq, ha, baseHdr]
-    simp only [Bool.not_true, Bool.false_eq_true, if_false]
-    cases r.creds <;> by_cases h1 : r.expose.length > 0 <;> simp [h1]
 
 /-- The property's Vary clause read literally: *whenever* the response depends on the request's Origin
     (some other Origin value would have produced a different response) Vary lists Origin. -/
@@ -165,7 +145,9 @@ theorem C52_model_meets_spec (hasRules : Bool) (rules : List Rule) (req : Req) (
     verdict hasRules rules req backend res.1 res.2 = "ok" ∨
     (verdict hasRules rules req backend res.1 res.2 = "FAIL:vary-absent-when-not-granted" ∧
       ¬ Granted hasRules rules req ∧ (governing hasRules rules).isSome = true ∧
-      varyCovers (baseHdr res.1 backend).vary = false) := by
+      varyCovers (baseHdr res.1 backend).vary = false) ∨
+    (verdict hasRules rules req backend res.1 res.2 = "FAIL:star-with-credentials" ∧
+      Granted hasRules rules req ∧ res.2.acao = [sStar] ∧ res.2.acac = [sTrue]) := by
   intro res
   have hres : res = handle hasRules rules req backend := rfl
   have hk : res.1 = (if answeredByModule hasRules rules req then Kind.P else Kind.N) := by
@@ -189,23 +171,34 @@ theorem C52_model_meets_spec (hasRules : Bool) (rules : List Rule) (req : Req) (
     simp [hb]
   | some r =>
     by_cases hgr : req.origin ≠ [] ∧ allowedBy req.origin r = true
-    · left
-      obtain ⟨ho, ha⟩ := hgr
+    · obtain ⟨ho, ha⟩ := hgr
       have h1 := (C52_echo_or_star hasRules rules req backend r ho hg ha).1
       have h2 := C52_vary hasRules rules req backend r ho hg ha
       rw [← hres] at h1 h2
       have haux := handle_aux hasRules rules req backend r ho hg ha
       rw [← hres] at haux
-      unfold verdict
-      simp only [hg, ← hk, bne_self_eq_false, Bool.false_eq_true, if_false]
       have ho' : (req.origin == []) = false := by simpa using ho
-      simp only [ho', ha, Bool.not_true, Bool.or_self, Bool.false_eq_true, if_false, h1, bne_self_eq_false,
-        h2.2, List.isPrefixOf_iff_prefix.mpr h2.1]
-      simp only [haux.1, haux.2.1, haux.2.2.1, haux.2.2.2.1, haux.2.2.2.2, bne_self_eq_false, Bool.or_self,
-        Bool.false_eq_true, if_false]
-      simp
-      generalize res.fst = k
-      cases k <;> rfl
+      cases hsc : ([expectedAcao req.origin r] == [sStar] && res.2.acac == [sTrue]) with
+      | true =>
+        right; right
+        have hv : verdict hasRules rules req backend res.1 res.2 = "FAIL:star-with-credentials" := by
+          unfold verdict
+          simp only [hg, ← hk, bne_self_eq_false, Bool.false_eq_true, if_false]
+          simp only [ho', ha, Bool.not_true, Bool.or_self, Bool.false_eq_true, if_false, h1, bne_self_eq_false,
+            hsc, if_true]
+        simp only [Bool.and_eq_true, beq_iff_eq] at hsc
+        exact ⟨hv, ⟨ho, r, hg, ha⟩, by rw [h1, hsc.1], hsc.2⟩
+      | false =>
+        left
+        unfold verdict
+        simp only [hg, ← hk, bne_self_eq_false, Bool.false_eq_true, if_false]
+        simp only [ho', ha, Bool.not_true, Bool.or_self, Bool.false_eq_true, if_false, h1, bne_self_eq_false,
+          h2.2, List.isPrefixOf_iff_prefix.mpr h2.1, hsc]
+        simp only [haux.1, haux.2.1, haux.2.2.1, haux.2.2.2.1, haux.2.2.2.2, bne_self_eq_false, Bool.or_self,
+          Bool.false_eq_true, if_false]
+        simp
+        generalize res.fst = k
+        cases k <;> rfl
     · have hng : ¬ Granted hasRules rules req := by
         intro ⟨ho, r', hr, ha⟩; rw [hg] at hr; cases hr; exact hgr ⟨ho, ha⟩
       have hb := C52_only_allowed hasRules rules req backend hng
@@ -224,7 +217,120 @@ theorem C52_model_meets_spec (hasRules : Bool) (rules : List Rule) (req : Req) (
       simp only [bne_self_eq_false, Bool.false_eq_true, if_false]
       cases hv : varyCovers (baseHdr res.1 backend).vary with
       | true => left; simp
-      | false => right; simp [hng]
+      | false => right; left; simp [hng]
+
+/-! ### preflight handling in full -/
+
+/-- **C52_preflight_answered_iff**: the module answers a request itself (204, never reaching the backend)
+    exactly when it is an OPTIONS request with an Origin and a supported Access-Control-Request-Method and
+    some rule of the product governs it. -/
+theorem C52_preflight_answered_iff (hasRules : Bool) (rules : List Rule) (req : Req) (backend : Hdr) :
+    (handle hasRules rules req backend).1 = Kind.P ↔
+      (req.method = sOptions ∧ req.origin ≠ [] ∧ req.acrm ∈ supportedMethods ∧
+        (governing hasRules rules).isSome = true) := by
+  unfold handle governing
+  simp only []
+  have hpf : isPreflight req = true ↔ (req.method = sOptions ∧ req.origin ≠ [] ∧ req.acrm ∈ supportedMethods) := by
+    unfold isPreflight; simp [and_assoc]
+  cases hs : firstMatch hasRules rules with
+  | none =>
+    simp only [ite_self, Option.isSome_none, Bool.false_eq_true, and_false, iff_false]
+    intro h; cases h
+  | some r =>
+    by_cases hp : isPreflight req = true
+    · simp [hp, hpf.mp hp]
+    · simp only [hp, Bool.false_eq_true, if_false, Option.isSome_some, and_true]
+      constructor
+      · intro h; split at h <;> (try split at h) <;> cases h
+      · intro h; exact absurd (hpf.mpr h) hp
+
+/-- **C52_preflight_response**: the complete header set of a granted preflight answer: the allowed origin,
+    `Access-Control-Allow-Credentials: true` iff configured, the configured method and header lists joined by
+    commas (absent when empty), `Access-Control-Max-Age` iff configured, no Expose-Headers, `Vary: Origin`. -/
+theorem C52_preflight_response (hasRules : Bool) (rules : List Rule) (req : Req) (backend : Hdr) (r : Rule)
+    (hp : isPreflight req = true) (hg : governing hasRules rules = some r) (ha : allowedBy req.origin r = true) :
+    handle hasRules rules req backend =
+      (Kind.P, { acao := [expectedAcao req.origin r],
+                 acac := if r.creds then [sTrue] else [],
+                 acam := if r.methods.length > 0 then [joinComma r.methods] else [],
+                 acah := if r.headers.length > 0 then [joinComma r.headers] else [],
+                 acma := match r.maxAge with | some m => [itoa m] | none => [],
+                 aceh := [],
+                 vary := [sOrigin] }) := by
+  unfold handle governing at *
+  simp only [hg, hp, if_true, setPreflight, matchOrigin_eq, ha]
+  simp only [Bool.not_true, Bool.false_eq_true, if_false]
+  have hv : addVary [] = [sOrigin] := by decide
+  cases r.creds <;> cases r.maxAge <;> by_cases h1 : r.methods.length > 0 <;> by_cases h2 : r.headers.length > 0 <;>
+    simp [h1, h2, hv]
+
+/-- **C52_preflight_ignores_requested**: the answer lists what the rule allows; it does not depend on WHICH
+    supported method is asked for nor on Access-Control-Request-Headers (the module never compares them with
+    AccessControlAllowMethods / AccessControlAllowHeaders — under Fetch that comparison is the browser's). -/
+theorem C52_preflight_ignores_requested (hasRules : Bool) (rules : List Rule) (req : Req) (backend : Hdr)
+    (a1 a2 h1 h2 : Str) (hs1 : a1 ∈ supportedMethods) (hs2 : a2 ∈ supportedMethods) :
+    handle hasRules rules { req with acrm := a1, acrh := h1 } backend =
+    handle hasRules rules { req with acrm := a2, acrh := h2 } backend := by
+  have e : isPreflight { req with acrm := a1, acrh := h1 } = isPreflight { req with acrm := a2, acrh := h2 } := by
+    unfold isPreflight; simp [hs1, hs2]
+  unfold handle
+  simp only [e, setPreflight, setNonPreflight]
+
+/-- **C52_max_age_range**: a rule the loader accepts carries a max-age within [-1, 86400]. -/
+theorem C52_max_age_range (r : Rule) (m : Int) (hok : ruleOk r = true) (hm : r.maxAge = some m) :
+    -1 ≤ m ∧ m ≤ 86400 := by
+  unfold ruleOk at hok
+  simp only [Bool.and_eq_true, hm] at hok
+  have := hok.2
+  simp at this
+  omega
+
+/-- **C52_star_no_credentials**: for a loader-accepted rule and a request whose Origin is not the literal `*`,
+    a granted `Access-Control-Allow-Origin: *` is never accompanied by a module-set credentials header: the
+    rule has credentials off and Access-Control-Allow-Credentials is whatever the backend sent. -/
+theorem C52_star_no_credentials (hasRules : Bool) (rules : List Rule) (req : Req) (backend : Hdr) (r : Rule)
+    (hok : ruleOk r = true) (ho : req.origin ≠ []) (hns : req.origin ≠ sStar)
+    (hg : governing hasRules rules = some r) (ha : allowedBy req.origin r = true)
+    (hstar : (handle hasRules rules req backend).2.acao = [sStar]) :
+    r.creds = false ∧
+    (handle hasRules rules req backend).2.acac = (baseHdr (handle hasRules rules req backend).1 backend).acac := by
+  have h1 := (C52_echo_or_star hasRules rules req backend r ho hg ha)
+  rw [hstar] at h1
+  have hexp : expectedAcao req.origin r = sStar := by
+    have := h1.1; simp at this; exact this.symm
+  have hmem : sStar ∈ r.origins := by
+    rcases h1.2 with h | h
+    · rw [hexp] at h; exact absurd h.symm hns
+    · exact h.2
+  have hall : r.origins.all (originOk r) = true := by
+    unfold ruleOk at hok
+    simp only [Bool.and_eq_true] at hok
+    exact hok.1.1.1.1.2
+  have hso := List.all_eq_true.mp hall sStar hmem
+  have hc : r.creds = false := by
+    unfold originOk at hso
+    cases hcr : r.creds with
+    | false => rfl
+    | true => rw [hcr] at hso; simp at hso
+  refine ⟨hc, ?_⟩
+  have haux := (handle_aux hasRules rules req backend r ho hg ha).1
+  simp only [hc, Bool.false_eq_true, if_false] at haux
+  exact haux
+
+/-- **Finding** (`star-with-credentials`): the module does not look at credentials headers the backend already
+    put on the response.  Rule `AccessControlAllowOrigins ["*"]` (credentials off), backend response carrying
+    `Access-Control-Allow-Credentials: true`: the client receives `*` together with `true`, which Fetch
+    forbids (browsers then refuse credentialed requests: fails closed). -/
+theorem C52_witness_star_with_credentials :
+    let r : Rule := { witnessRule with origins := [sStar] }
+    ruleOk r = true ∧
+    (handle true [r] { witnessReq with origin := [0x61] } { acac := [sTrue] }).2.acao = [sStar] ∧
+    (handle true [r] { witnessReq with origin := [0x61] } { acac := [sTrue] }).2.acac = [sTrue] := by decide
+
+/-- Not a violation of bfe's documentation (the loader comment says so), but worth knowing: a credentialed
+    rule may list `*` as method / header, which Fetch then treats as the literal name `*`. -/
+example : ruleOk { witnessRule with origins := [sPctOrigin], creds := true, methods := [sStar], headers := [sStar] } = true := by
+  decide
 
 /-! Non-vacuity -/
 example : Granted true [witnessRule] { witnessReq with origin := [0x61] } :=
